@@ -249,6 +249,10 @@ def worker(ctx):
                                "SELECT x, * ILIKE 'c%' FROM t", "SELECT * EXCLUDE (a) RENAME (b AS c) FROM t", "SELECT COUNT(*), t.* FROM t",
                                "SELECT * EXCEPT (a) REPLACE (b * 2 AS b) FROM (SELECT * FROM u) AS t"])
             variants.append(respace(rng, star, uni=False))
+        if i % 5 == 0:
+            # unterminated lexemes: TokenError must point at the text it quotes
+            cut = rng.choice(["'abc", '"abc', "/* never closed", "`abc", "'it''s", "$$abc", "'multi\nline"])
+            variants.append(respace(rng, s, uni=False) + rng.choice([" ", "\n", " AND x = "]) + cut)
         if rng.random() < 0.3:
             # quoted identifiers spanning lines / multi-byte names, in the dialect-independent double-quote form
             variants.append(respace(rng, s.replace(" AS p", ' AS "p\n' + rng.choice(UNI) + '"', 1)))
